@@ -66,6 +66,11 @@ V21 = {
     "vulnerability": _t("Vulnerability", {}, ("name", "n-a", "n-b")),
     "relationship": _t("Relationship", {"source_ref": REF["campaign"], "target_ref": REF["malware"]}, ("relationship_type", "uses", "targets")),
     "sighting": _t("Sighting", {}, ("sighting_of_ref", REF["malware"], REF["malware2"])),
+    # the two versionable 2.1 types that are neither SDO nor SRO proper (meta objects): same versioning, marking and store guarantees
+    "language-content": _t("LanguageContent", {"contents": {"de": {"name": "x"}}}, ("object_ref", REF["campaign"], REF["malware"]),
+                           desc=("object_modified", "2019-01-01T00:00:00.000Z", "2019-02-01T00:00:00.000Z"), al=("labels", ["x"], ["x", "y"])),
+    "extension-definition": _t("ExtensionDefinition", {"schema": "s", "version": "1.0.0", "extension_types": ["property-extension"], "created_by_ref": REF["identity"]},
+                               ("name", "n-a", "n-b")),
 }
 V20 = {
     "attack-pattern": _t("AttackPattern", {}, ("name", "n-a", "n-b")),
